@@ -427,6 +427,21 @@ Definition has_mdef (ms : list member) : bool :=
   existsb (fun m => match m with MSub _ _ true => true | _ => false end) ms.
 Definition leaves_only (fs : list field) : list member := map (fun f => MLeaf {| o_field := f; o_over := None |}) fs.
 
+(* a member that carries no declaration-time default (no default= override, no default instance on a
+   dataclass-typed member); a dataclass-typed member has at least one parameter *)
+Definition no_over (o : ofield) : bool := negb (isSome (o_over o)).
+Definition plain_member (m : member) : bool :=
+  match m with
+  | MLeaf o => no_over o
+  | MSub _ sub d => forallb no_over sub && negb d && negb (is_nil sub)
+  end.
+(* ... the same, but a dataclass-typed member may have a default instance (of the member type's own defaults) *)
+Definition plain_member_d (m : member) : bool :=
+  match m with
+  | MLeaf o => no_over o
+  | MSub _ sub _ => forallb no_over sub && negb (is_nil sub)
+  end.
+
 Definition ofield_eqb (a b : ofield) : bool :=
   field_eqb (o_field a) (o_field b) && option_eqb val_eqb (o_over a) (o_over b).
 Definition member_eqb (a b : member) : bool :=
